@@ -36,6 +36,8 @@ func runC08(c *Check, tier string) {
 	ruleNoSharedReaderFromSingleflight(c, "R08m")
 	// what the second machine is told exists was uploaded
 	ruleRecordOnlyAfterStore(c, "R08n")
+	ruleStoreReaderFresh(c, "R08o")
+	rulePendingEntryReleased(c, "R08p", "caching", "caching/backends", "output", "output/handlers")
 	// a restore on the second machine reports the blobs it could not fetch
 	shareRule(c, "R08i", "an error channel whose sends never block (select/default) has room for at least one error (same obligation as R04d)", 1, "R04d", func(sub *Check) { ruleR04d(sub) }, func(k string) bool { return strings.Contains(k, "output/handlers") || strings.Contains(k, "caching") })
 }
